@@ -171,6 +171,29 @@ def check(case, res):
                     bad.append(('ancestor_op', 'self_stop_pause_reset_refused', i,
                                 'op %d %s: routine %d, nested below the running routine %d, called its %s() and was not refused '
                                 '(outcome %s)' % (i, op, e[0], root, {0: 'next', 1: 'stop', 2: 'pause', 4: 'reset'}[e[2]], e[-2:])))
+        # side effects a Routine SUBCLASS adds to reset()/stop() (EventStreamPlayer: rewinds its source stream, runs its
+        # cleanup) happen exactly when the operation was accepted - a refused or failed one has NO effect
+        subs = s.get('sub') or []
+        if any(x is not None for x in subs):
+            slice_ = (res.get('log') or [])[prev.get('loglen', 0):s['loglen']]
+            for r, now in enumerate(subs):
+                if now is None:
+                    continue
+                before = (prev.get('sub') or [None] * nr)[r] or [0, 0]
+                ok = {1: 0, 4: 0}
+                if op[0] == 'call' and op[1][0] in ('stop', 'reset') and op[1][1] == r and s['out'][0] == 0:
+                    ok[{'stop': 1, 'reset': 4}[op[1][0]]] += 1
+                for e in slice_:
+                    if e[1] == 3 and e[2] in (1, 4) and e[3] == r and e[-2:] == [0, 0]:
+                        ok[e[2]] += 1
+                uncaught_possible = any(e[1] == 3 for e in slice_) or op[0] == 'tick' or (op[0] == 'call' and op[1][0] == 'next')
+                d_resets, d_runs = now[0] - before[0], now[1] - before[1]
+                # accepted calls are always logged (caught or not); an uncaught REFUSED call is not logged and must not count
+                if d_resets != ok[4] or d_runs != ok[1] + ok[4]:
+                    bad.append(('subclass_effect', 'self_stop_pause_reset_refused', i,
+                                'op %d %s: routine %d (a Routine subclass) had %d accepted reset() and %d accepted stop() but its source '
+                                'stream was rewound %d times and its cleanup ran %d times: a refused/failed operation had an effect' % (
+                                    i, op, r, ok[4], ok[1], d_resets, d_runs)))
         if op[0] == 'tick' and prev['queue']:
             t0, r0 = prev['queue'][0]
             made_calls = any(e[1] == 3 for e in (res.get('log') or [])[prev.get('loglen', 0):s['loglen']])
